@@ -8,6 +8,7 @@
    Session 3: the model carries the run queues (`janet_vm.spawn`), the waiting state of fibers and an event log; the step from
    hand-out order to resume order per receiving fiber is now proved (`per_sender_order`, executions without abandoned waits). -/
 import JanetModel.Thread.EndToEnd
+import JanetModel.Thread.SpawnLemmas
 
 namespace JanetModel.Props.C08
 open JanetModel.Thread
@@ -179,7 +180,75 @@ theorem writer_wakeup_counterexample :
     (run ⟨true, true, true, true, true, true⟩ acts (init 1)).woken = [(3, Kind.write)] := by
   decide
 
-/-! ### ev/thread -/
+/-! ### supervisor channels
+
+   A supervisor event (`[:ok value task-id]`, `[:error ..]`, ...) is pushed by janet_loop1 with
+   `janet_channel_push(chan, make_supervisor_event(..), 2)`, the thread-start error report likewise; `ev/give-supervisor` is an
+   ordinary give.  Mode 2 is the action `giveNB` of the model (never parks), so every theorem above that quantifies over
+   `acts : List Act` - `exactly_once`, `exactly_once_resumed`, `per_sender_order` - covers supervisor events mixed with gives,
+   takes, closes, abandoned waits, in every interleaving.  The two statements below spell the supervisor case out. -/
+
+/-- a mode-2 push behaves like a give into a channel that is never over capacity: it registers no pending writer and the pushing
+    side never waits, whatever the limit -/
+theorem supervisor_push_never_parks (s : St) (f : Nat) (x : Item) :
+    (giveNB s f x).writers = s.writers ∧ (giveNB s f x).waiting = s.waiting ∧
+      (s.closed = false → (giveNB s f x).sent = s.sent ++ [x]) := by
+  unfold giveNB
+  refine ⟨?_, ?_, ?_⟩ <;> (repeat' split) <;> simp_all
+
+/-- ★ every event reported to a supervisor channel arrives exactly once, and the events about one thread / fiber arrive at the
+    supervising fiber in the order in which they were reported: instance of `exactly_once_resumed` and `per_sender_order` for
+    histories that contain mode-2 pushes (stated for an arbitrary history; `tag` labels an event with the fiber it is about) -/
+theorem supervisor_events_exactly_once_in_order (cfg : Cfg) (hq : cfg.requeue = true) (hd : cfg.redispatch = true)
+    (limit : Nat) (acts : List Act) (hclean : (run cfg acts (init limit)).abandons = 0)
+    (tag : Item → Nat) (htag : ∀ f x, Ev.gave f x ∈ (run cfg acts (init limit)).log → tag x = f) (about supervisor : Nat) (x : Item) :
+    let s := run cfg acts (init limit)
+    ((gaveSeq s.log).countP (· == x) =
+      s.items.countP (· == x) + s.flight.countP (fun m => m.item == some x) + s.runq.countP (fun k => k.item == some x) +
+        (gotAll s.log).countP (fun d => d.2 == x)) ∧
+    ((gotSeq supervisor s.log).filter (fun y => tag y == about)).Sublist (gaveBy about s.log) :=
+  ⟨exactly_once_resumed_clean cfg hq hd limit acts hclean x, per_sender_order cfg limit acts hclean tag htag about supervisor⟩
+
+-- non-vacuity: thread 1's fibers 11 and 12 report three events to a supervisor channel of capacity 1 (the second and third are
+-- over capacity: no parking), the supervisor fiber 9 of thread 0 takes them, interleaved with an ordinary give
+example :
+    let s := run ⟨true, true, true, true, true, true⟩
+      [.giveNB 11 110, .giveNB 11 111, .giveNB 12 120, .take 0 9, .resume 0, .give 1 13 130, .take 0 9, .resume 0, .take 0 9, .resume 0,
+       .take 0 9, .resume 0] (init 1)
+    s.abandons = 0 ∧ s.sent = [110, 111, 120, 130] ∧ gotSeq 9 s.log = [110, 111, 120, 130] ∧ gaveBy 11 s.log = [110, 111] := by
+  decide
+
+/-! ### ev/thread: value hand-over to the new thread -/
+
+open JanetModel.Thread.Spawn in
+/-- ★ what janet_go_thread_subr unmarshals is what cfun_ev_thread marshalled, for EVERY plan (order and guards of the
+    segments), flag word and arguments, provided both sides follow the same plan - the per-run obligation
+    `Thread.Current.thread_plans_agree` on the regenerated plans; nothing is left in the buffer -/
+theorem thread_args_roundtrip (plan : List PStep) (flags : Nat) (a : Args) :
+    readBuf plan flags (writeBuf plan flags a) = some (writeBuf plan flags a, []) := by
+  have := read_write plan flags a []
+  simpa using this
+
+open JanetModel.Thread.Spawn in
+/-- ★ exactly once: for every sequence of ev/thread calls and thread starts (any order, any flags), every call's buffer is
+    either still waiting for its thread or was consumed by exactly one thread (`spawned = pending + ran`), one buffer is freed
+    per thread that ran, and every thread that ran read back a well-formed buffer with nothing left over -/
+theorem thread_handover_exactly_once (plan : List PStep) (acts : List HAct) :
+    let s := hrun plan plan acts {}
+    s.spawned.length = s.started.length + s.ran.length ∧ s.freed = s.ran.length ∧ ∀ r ∈ s.ran, ∃ got, r = some (got, []) := by
+  have h0 : HInv plan {} := ⟨rfl, rfl, fun fb hfb => by simp at hfb, fun r hr => by simp at hr⟩
+  have h := hrun_inv plan acts {} h0
+  exact ⟨h.count, h.freed, h.ok⟩
+
+open JanetModel.Thread.Spawn in
+/-- if the reader took `main` and `value` in the other order than they were written, the thread would start with garbage -/
+theorem thread_args_counterexample :
+    let w : List PStep := [⟨true, 0, true, .main⟩, ⟨true, 0, true, .value⟩]
+    let r : List PStep := [⟨true, 0, true, .value⟩, ⟨true, 0, true, .main⟩]
+    readBuf r 0 (writeBuf w 0 (mkArgs (0, 7, 8))) = none := by
+  decide
+
+/-! ### ev/thread: completion -/
 
 def TInv (s : TSt) : Prop :=
   (s.posted = true → s.bodyDone = true) ∧ (s.callerResumed = true → s.posted = true) ∧ s.resumedAfterBody = true
